@@ -200,9 +200,28 @@ func keywordMisspellings() []string {
 
 // lookalikes: names that a careless text-level shortcut could take for numbers or keywords
 // (strconv.ParseFloat reads "inf", "Infinity", "nan", "1e1", "0x10", "1_0"), directly after a sign.
+// starOperators: a name test that ends in `*` (or any name test) followed by an operator NAME or `*`:
+// the `*` of `p:*` ends an operand, so `div`/`mod`/`and`/`or` after it are operators (seeded change C08-14
+// retagged them as names and the expression was rejected)
+func starOperators() []string {
+	tests := []string{"*", "p:*", "*:b", "p:b", "@p:*", "@*", "b", "p:div", "div"}
+	ops := []string{"div", "mod", "and", "or", "*", "+", "=", "|"}
+	rights := []string{"2", "b"}
+	var out []string
+	for _, t := range tests {
+		for _, o := range ops {
+			for _, x := range rights {
+				out = append(out, t+" "+o+" "+x, "/a/"+t+" "+o+" "+x, "/a["+t+" "+o+" "+x+" = 3]", x+" "+o+" "+t)
+			}
+		}
+	}
+	return out
+}
+
 func lookalikes() []string {
 	names := []string{"inf", "Infinity", "infinity", "nan", "NaN", "e1", "true", "x0", "INF"}
-	forms := []string{"-%s", "- %s", "-(%s)", "%s", "1 - -%s", "-%s + 1", "%s * 2", "2 * -%s", "-%s = -2", "--%s", "-%s/text()", "number(%s)", "-%s[1]", "+%s", "-child::%s", "sum(%s) - %s", "- -%s", "-%s div 2"}
+	forms := []string{"-%s", "- %s", "-(%s)", "%s", "1 - -%s", "-%s + 1", "%s * 2", "2 * -%s", "-%s = -2", "--%s", "-%s/text()", "number(%s)", "-%s[1]", "+%s", "-child::%s", "sum(%s) - %s", "- -%s", "-%s div 2",
+		"*[%s]", "(*)[%s]", "*[ %s ]", "*[%s][1]", "count(/r[%s])", "/r[%s]/*[2]", "*[child::%s]", "*[(%s)]", "*[-%s]", "/r[%s and 1]"}
 	var out []string
 	for _, n := range names {
 		for _, f := range forms {
@@ -289,6 +308,16 @@ func GenSyntaxFamily(w *Writer, r *Rng, t Tier) error {
 		for _, s := range lookalikes() {
 			w.Syn("syn-lookalikes", s, nil)
 			w.EvalX("syn-lookalikes-eval", d2, Env{}, 1, s)
+		}
+		c3, err := xsel.ReadXml(strings.NewReader("<a xmlns:p='urn:p'><b>6</b><p:b>8</p:b><p:div p:k='4' k='2'>9</p:div><div>3</div><b>12</b></a>"))
+		if err != nil {
+			return err
+		}
+		d3 := &Doc{Id: "stardoc", Dump: DumpTree(c3)}
+		w.Line("doc "+d3.Id+" "+d3.Dump.Sexp(), "wf=1", map[string]interface{}{"k": "doc", "doc": d3.Id, "nodes": len(d3.Dump.Cursors)})
+		for _, s := range starOperators() {
+			w.Syn("syn-star-operators", s, nil)
+			w.EvalX("syn-star-operators-eval", d3, env, 1, s)
 		}
 	}
 	for di := 0; di < t.Docs; di++ {
